@@ -15,7 +15,7 @@ RULE = ("(a) every statistic (14) on every shape of its dimensionality in a grid
         "shapes of the wrong dimensionality (error expected): `sfs stat --precision 15` vs the model within 1e-9 relative "
         "(D statistics: model numerator / sqrt(model radicand)); (b) end to end: random call sets without missing data -> "
         "`sfs create` -> `sfs stat`, vs the definitions computed directly from the genotypes by enumerating chromosome "
-        "pairs / allele frequencies / genotype pairs. non-trivial = statistic defined and non-zero; the same integer spectrum as text and as npy of all 18 element types / byte orders must print the same statistic")
+        "pairs / allele frequencies / genotype pairs. non-trivial = statistic defined and non-zero; the same integer spectrum as text and as npy of all 18 element types / byte orders must print the same statistic; and as text without a final line feed, with CR LF, tabs, one value per line, trailing blank lines")
 
 
 def shapes_for(stat, tier, rng):
@@ -264,19 +264,26 @@ def check(rep, tier, seed):
             cjobs.append((["stat", "-s", st, "--precision", "12"], _ts(sh, list(map(str, vals))))); cmeta.append((st, sh, vals, "text"))
             for descr in (DESCRS if tier != "quick" else rng.sample(DESCRS, 6) + [">f8", ">i4"]):
                 cjobs.append((["stat", "-s", st, "--precision", "12"], npy_bytes(sh, vals, descr))); cmeta.append((st, sh, vals, descr))
+            # ... and as text laid out differently: no final line feed, CR LF, tabs, one value per line, blank lines at the end
+            hdr_ = "#SHAPE=<%s>" % "/".join(map(str, sh))
+            tv = list(map(str, vals))
+            for lname, body in (("text, no final line feed", hdr_ + "\n" + " ".join(tv)), ("text, CR LF", hdr_ + "\r\n" + " ".join(tv) + "\r\n"),
+                                ("text, tabs", hdr_ + "\n" + "\t".join(tv) + "\n"), ("text, one value per line", hdr_ + "\n" + "\n".join(tv) + "\n"),
+                                ("text, blank lines at the end", hdr_ + "\n" + " ".join(tv) + "\n\n\n"), ("text, one value per line, no final line feed", hdr_ + "\n" + "\n".join(tv))):
+                cjobs.append((["stat", "-s", st, "--precision", "12"], body.encode())); cmeta.append((st, sh, vals, lname))
     cres = run_cli_many(cjobs)
     ref_out = None
-    for (st, sh, vals, form), (rc, so, se) in zip(cmeta, cres):
+    for (st, sh, vals, form), (rc, so, se), cj in zip(cmeta, cres, cjobs):
         if form == "text":
             ref_out = (rc, so)
             continue
         rep.count("stat-container:" + form, "%s %s" % (st, fmt(sh)), True)
         if (rc, so) != ref_out or rc != 0:
             rep.fail(kind="property-oracle", cls="stat:container:" + st, case="stat %s on %s given as npy %s" % (st, fmt(sh), form),
-                     argv=["sfs", "stat", "-s", st, "--precision", "12"], stdin_hex=npy_bytes(sh, vals, form).hex(),
+                     argv=["sfs", "stat", "-s", st, "--precision", "12"], stdin_hex=cj[1].hex(),
                      observed={"rc": rc, "stdout": so.decode(errors="replace")[:100], "stderr": se.decode(errors="replace")[-200:]},
                      expected={"rc": ref_out[0], "stdout": ref_out[1].decode(errors="replace")[:100]},
-                     detail="the statistic of the same spectrum read from an npy file of element type %s differs from the one read from text" % form)
+                     detail="the statistic of the same spectrum read from %s differs from the one read from plain text" % (form if form.startswith("text") else "an npy file of element type " + form))
     rep.assumptions += ["exact-arithmetic theorems; f64 results compared within 1e-9 relative; sqrt evaluated in floating point for D",
                         "positive data so that no denominator vanishes (x/0 is NaN/inf in f64, outside the theorems' hypotheses)"]
 
